@@ -53,6 +53,9 @@ def contexts():
             ("spec_only_fb", [("seq", [("fb", [L("--all"), R("X")]), L("last")])], [("X", "bash", p)]),
             ("word_fb_cmds", [("seq", [("sub", [L("--opt="), ("fb", [p, q])]), L("last")])], []),
             ("word_cmd_then_top_fb", [("seq", [("fb", [L("lit"), ("sub", [L("--o="), ("fb", [q, p])])]), L("last")])], []),
+            # one definition used at two different `||` levels (in a later branch first, then at level 0 in another call variant)
+            ("shared_def_two_levels", [("seq", [L("first"), ("fb", [L("foo"), R("X")])]), ("seq", [L("second"), R("X")])], [("X", "", p)]),
+            ("shared_def_two_levels_rev", [("seq", [L("second"), R("X")]), ("seq", [L("first"), ("fb", [L("foo"), R("X")])])], [("X", "", p)]),
         ]
     return out
 
